@@ -49,6 +49,7 @@ type Term struct {
 	s    string
 	name string // for var
 	key  string // structural key (for hash-consing / comparison)
+	re   string // str.in_re built from a Go regexp: the pattern (model evaluation runs it natively)
 }
 
 func (t *Term) isConst() bool { return t.op == "const" }
@@ -505,7 +506,7 @@ func (t *Term) write(sb *strings.Builder, names map[*Term]string) {
 		}
 	case "var":
 		sb.WriteString(t.name)
-	case "rawbool":
+	case "rawbool", "rawre":
 		sb.WriteString(t.s)
 	default:
 		sb.WriteByte('(')
